@@ -11,6 +11,7 @@ import OpenHTF.Driver.C09
 import OpenHTF.Driver.C06
 import OpenHTF.Driver.C10
 import OpenHTF.Driver.C17
+import OpenHTF.Driver.C15
 open OpenHTF.Driver
 
 def stripNl (s : String) : String :=
@@ -31,6 +32,7 @@ def dispatch (line : String) : String :=
   | "C06" :: ts => C06.handle ts
   | "C10" :: ts => C10.handle ts
   | "C17" :: ts => C17.handle ts
+  | "C15" :: ts => C15.handle ts
   | "C03" :: ts => C02.handleC03 ts
   | _ => reply false false "unknown-property"
 
